@@ -125,12 +125,13 @@ def expectXhtml (strip : Bool) (dropd : Bool) (dopt : Option DocTypeT) (s : Stre
     else if !attrValOkB u then out "namespace-uri"
     else if !okList body0 then out "not-a-forest"
     else if !forestUniformNs u body0 then
-      -- forests that mix namespaces: `xhtml_roundtrip_tree_mixed_tokens_partial` gives the tokens; the
+      -- forests that mix namespaces: `xhtml_roundtrip_tree_mixed_tokens(_strip)_partial` gives the tokens; the
       -- specification-side `xmlView` resolves them (no theorem yet says what it resolves them to)
-      (if strip || dopt.isSome || ns.length != body0.length || !dropd then out "mixed-namespaces"
+      (if dopt.isSome || ns.length != body0.length || !dropd then out "mixed-namespaces"
        else if !forestMixedOk body0 then out "mixed-namespaces-xml"
-       else if !xhtmlForestOk body0 || !forestNsValsOk body0 then out "mixed-body-hypotheses"
-       else match xmlView [] (assemble (forestPiecesXM [] body0)) with
+       else if strip && !wsDom .xhtml body0 then out "whitespace-domain"
+       else if !xhtmlForestOk body || !forestNsValsOk body then out "mixed-body-hypotheses"
+       else match xmlView [] (assemble (forestPiecesXM [] body)) with
          | some ts => .list [.atom "ok", .list (ts.map xtok)]
          | none => out "mixed-not-resolvable")
     else if strip && !wsDom .xhtml body0 then out "whitespace-domain"
